@@ -77,7 +77,9 @@ func C10(seed uint64, run int) *spec.Spec {
 					if t.Year() < 2 || t.Year() > 9990 {
 						t = t.Add(-2 * d)
 					}
-					c.Now = t.Format(time.RFC3339Nano)
+					if t.Year() >= 2 && t.Year() <= 9990 {
+						c.Now = t.Format(time.RFC3339Nano)
+					}
 				}
 			} else {
 				lk.Fault = "zone_change"
